@@ -139,28 +139,28 @@ type Observed struct {
 type StateEvent struct {
 	ID    string
 	After bool
+	Token int
 	State hook.State
 }
 
-// StateMismatches pairs every "after" snapshot with the latest unmatched "before" snapshot of the same id
-// (constructs that failed in between leave unmatched "before" events, which are dropped) and returns a
-// description of every pair that differs.
+// StateMismatches pairs every "after" snapshot with the "before" snapshot carrying the same token (the token is
+// returned by the before-probe, kept in a template variable and passed to the after-probe, so re-entered
+// constructs and constructs that failed in between cannot be confused) and describes every pair that differs.
 func (o Observed) StateMismatches() []string {
-	var stack []StateEvent
+	before := map[int]StateEvent{}
 	var out []string
 	for _, e := range o.StateEvents {
 		if !e.After {
-			stack = append(stack, e)
+			before[e.Token] = e
 			continue
 		}
-		for i := len(stack) - 1; i >= 0; i-- {
-			if stack[i].ID == e.ID {
-				if stack[i].State != e.State {
-					out = append(out, fmt.Sprintf("%s: before %+v, after %+v", e.ID, stack[i].State, e.State))
-				}
-				stack = stack[:i]
-				break
-			}
+		b, ok := before[e.Token]
+		if !ok {
+			continue
+		}
+		delete(before, e.Token)
+		if b.State != e.State {
+			out = append(out, fmt.Sprintf("%s: before %+v, after %+v", e.ID, b.State, e.State))
 		}
 	}
 	return out
@@ -215,10 +215,23 @@ func (p *Program) Run(o RunOpts) (obs Observed) {
 		log = append(log, e)
 		return "‹" + id + "›"
 	})
+	ntok := 0
 	vars.SetFunc("sp", func(a jet.Arguments) reflect.Value {
 		id, kind := fmt.Sprint(a.Get(0).Interface()), fmt.Sprint(a.Get(1).Interface())
-		obs.StateEvents = append(obs.StateEvents, StateEvent{ID: id, After: kind == "a", State: hook.Probe(a.Runtime())})
-		return reflect.ValueOf("")
+		ev := StateEvent{ID: id, After: kind == "a", State: hook.Probe(a.Runtime())}
+		if ev.After {
+			if t := a.Get(2); t.IsValid() && t.Kind() == reflect.Int {
+				ev.Token = int(t.Int())
+			} else {
+				ev.Token = -1
+			}
+			obs.StateEvents = append(obs.StateEvents, ev)
+			return reflect.ValueOf("")
+		}
+		ntok++
+		ev.Token = ntok
+		obs.StateEvents = append(obs.StateEvents, ev)
+		return reflect.ValueOf(ntok)
 	})
 	for k, v := range o.ExtraVars {
 		vars.Set(k, v)
